@@ -956,4 +956,226 @@ theorem notin_ranges (cfg : Cfg) (s : Seq) (xs : List Cell) (hsh : s.Shows xs) (
       · intro hP w hw; exact hP w (by simp [hw])
 
 
+/-! ### `_compare(…, "bisect")` as a whole -/
+
+theorem dedupAdjAux_subset : ∀ (l : List Cell) (k v : Cell), v ∈ dedupAdjAux k l → v ∈ l
+  | [], _, _, h => by simp [dedupAdjAux] at h
+  | y :: ys, k, v, h => by
+    simp only [dedupAdjAux] at h
+    split at h
+    · exact List.mem_cons_of_mem _ (dedupAdjAux_subset ys k v h)
+    · simp at h
+      rcases h with rfl | h
+      · simp
+      · exact List.mem_cons_of_mem _ (dedupAdjAux_subset ys y v h)
+
+theorem dedupAdj_subset (l : List Cell) (v : Cell) (h : v ∈ dedupAdj l) : v ∈ l := by
+  cases l with
+  | nil => simp [dedupAdj] at h
+  | cons x xs =>
+    simp only [dedupAdj, List.mem_cons] at h
+    rcases h with rfl | h
+    · simp
+    · exact List.mem_cons_of_mem _ (dedupAdjAux_subset xs x v h)
+
+/-- the meaning of an operator/argument pair on a key -/
+def argSat : Op → ArgV → Key → Bool
+  | .isin, .coll vs, c => vs.any (fun v => decide (c = v.key))
+  | .notin, .coll vs, c => !(vs.any (fun v => decide (c = v.key)))
+  | .isin, .scalar _, _ => false
+  | .notin, .scalar _, _ => false
+  | op, .scalar v, c => keySat op c v.key
+  | _, .coll _, _ => false
+
+/-- operator and argument fit: a value for the six comparisons, a collection for `in` / `!in` -/
+def argShape : Op → ArgV → Bool
+  | .isin, .coll _ => true
+  | .notin, .coll _ => true
+  | .isin, .scalar _ => false
+  | .notin, .scalar _ => false
+  | .mtch, _ => false
+  | _, .scalar _ => true
+  | _, .coll _ => false
+
+def probesOf : ArgV → List Cell
+  | .scalar v => [v]
+  | .coll vs => vs
+
+theorem ProbeOK.of_subset {cfg : Cfg} {xs : List Cell} {lo hi : Nat} {vs ws : List Cell}
+    (h : ProbeOK cfg xs lo hi vs) (hsub : ∀ w ∈ ws, w ∈ vs) : ProbeOK cfg xs lo hi ws :=
+  { h with cmp := fun w hw => h.cmp w (hsub w hw), vnn := fun w hw => h.vnn w (hsub w hw) }
+
+theorem compareBisect_spec (cfg : Cfg) (s : Seq) (xs : List Cell) (hsh : s.Shows xs) (lo hi : Nat)
+    (op : Op) (a : ArgV) (hshape : argShape op a = true)
+    (hok : ProbeOK cfg xs lo hi (probesOf a)) (hcmp : allComparable (probesOf a) = true)
+    (hdup : op = .isin → cfg.dedupIn = true ∨ (probesOf a).Pairwise (fun u v => u.key ≠ v.key)) :
+    ∃ rs, compareBisect cfg s lo hi op a = .ok rs ∧
+      Picks (rs.flatMap rangeOf) lo hi (fun i => argSat op a (cellAt xs i).key = true) := by
+  cases a with
+  | scalar v =>
+    have hsc : op.isScalarOp = true := by cases op <;> simp_all [argShape, Op.isScalarOp]
+    obtain ⟨bl, br, e1, e2, hc⟩ := cuts_exists cfg s xs hsh lo hi _ hok v (by simp [probesOf])
+    obtain ⟨rs, e, hp⟩ := compareBisect_scalar cfg s xs v lo hi bl br e1 e2 hc op hsc
+    refine ⟨rs, e, ?_⟩
+    cases op <;> simp_all [argSat, Op.isScalarOp]
+  | coll vs =>
+    simp only [probesOf] at hok hcmp hdup
+    have hperm := sortBy_perm ltk vs
+    have hsorted := sortBy_sorted ltk ltk_swo vs
+    have hok1 : ProbeOK cfg xs lo hi (sortBy ltk vs) := hok.of_subset (fun w hw => hperm.mem_iff.mp hw)
+    cases op <;> simp only [argShape] at hshape <;> try (exact absurd hshape (by decide))
+    · -- in
+      have hkeys : ∃ vs', (if cfg.dedupIn then dedupAdj (sortBy ltk vs) else sortBy ltk vs) = vs' ∧ StrictKeys vs' ∧
+          (∀ w ∈ vs', w ∈ vs) ∧ (∀ c : Key, (∃ v ∈ vs', c = v.key) ↔ (∃ v ∈ vs, c = v.key)) := by
+        by_cases hd : cfg.dedupIn = true
+        · obtain ⟨p, q⟩ := dedupAdj_spec (sortBy ltk vs) hsorted hok1.vnn
+          refine ⟨_, by simp [hd], p, fun w hw => hperm.mem_iff.mp (dedupAdj_subset _ _ hw), fun c => ?_⟩
+          rw [q c]
+          constructor
+          · rintro ⟨v, hv, e⟩; exact ⟨v, hperm.mem_iff.mp hv, e⟩
+          · rintro ⟨v, hv, e⟩; exact ⟨v, hperm.mem_iff.mpr hv, e⟩
+        · have hdis : vs.Pairwise (fun u v => u.key ≠ v.key) := by
+            rcases hdup rfl with h | h
+            · exact absurd h hd
+            · exact h
+          have hdis' : (sortBy ltk vs).Pairwise (fun u v => u.key ≠ v.key) :=
+            (hperm.pairwise_iff (fun {a b} (h : a.key ≠ b.key) => fun e => h e.symm)).mpr hdis
+          refine ⟨_, by simp [hd], strict_of_sorted_distinct _ hsorted hdis', fun w hw => hperm.mem_iff.mp hw, fun c => ?_⟩
+          constructor
+          · rintro ⟨v, hv, e⟩; exact ⟨v, hperm.mem_iff.mp hv, e⟩
+          · rintro ⟨v, hv, e⟩; exact ⟨v, hperm.mem_iff.mpr hv, e⟩
+      obtain ⟨vs', evs, hstrict, hsub, hkey⟩ := hkeys
+      obtain ⟨rs, e, hp⟩ := isin_ranges cfg s xs hsh lo hi vs' (hok.of_subset hsub) hstrict
+      refine ⟨rs, ?_, ?_⟩
+      · simp only [compareBisect, pySorted_ok vs hcmp, bind, Except.bind, evs]
+        exact e
+      · apply hp.congr
+        intro i _ _
+        simp only [argSat, List.any_eq_true, decide_eq_true_eq]
+        constructor
+        · rintro ⟨v, hv, e⟩; exact (hkey _).mp ⟨v, hv, e⟩
+        · rintro ⟨v, hv, e⟩; exact (hkey _).mpr ⟨v, hv, e⟩
+    · -- !in
+      obtain ⟨rs, e, hp⟩ := notin_ranges cfg s xs hsh lo hi (sortBy ltk vs) Option.none lo hok1 hsorted rfl
+        (le_refl _) hok.le (fun v _ bl br hc => by have := hc.lo_bl; have := hc.bl_br; omega)
+      refine ⟨rs, ?_, ?_⟩
+      · simp only [compareBisect, pySorted_ok vs hcmp, bind, Except.bind, notinPairs_eq _ hok1.vnn]
+        exact e
+      · apply hp.congr
+        intro i _ _
+        simp only [argSat, Bool.not_eq_true', List.any_eq_false, decide_eq_true_eq]
+        constructor
+        · intro h v hv; exact h v (hperm.mem_iff.mpr hv)
+        · intro h v hv; exact h v (hperm.mem_iff.mp hv)
+
+
+/-! ## the scan path -/
+
+theorem scanFilter_congr : ∀ (col : List Cell) (lo : Nat) (f g : Cell → Except Err Bool),
+    (∀ c ∈ col, f c = g c) → scanFilter lo col f = scanFilter lo col g
+  | [], _, _, _, _ => rfl
+  | c :: cs, lo, f, g, h => by
+    simp only [scanFilter]
+    rw [h c (by simp), scanFilter_congr cs (lo + 1) f g (fun d hd => h d (by simp [hd]))]
+
+theorem cellAt_cons_succ (c : Cell) (cs : List Cell) (i : Nat) : cellAt (c :: cs) (i + 1) = cellAt cs i := by
+  simp [cellAt, List.getD]
+
+theorem cellAt_cons_zero (c : Cell) (cs : List Cell) : cellAt (c :: cs) 0 = c := by
+  simp [cellAt, List.getD]
+
+/-- if the test is defined (`q`) on every cell, the scan lists the positions that pass -/
+theorem scanFilter_picks : ∀ (col : List Cell) (lo : Nat) (test : Cell → Except Err Bool) (q : Cell → Bool),
+    (∀ c ∈ col, test c = .ok (q c)) →
+    ∃ l, scanFilter lo col test = .ok l ∧ Picks l lo (lo + col.length) (fun i => q (cellAt col (i - lo)) = true)
+  | [], lo, _, _, _ => ⟨[], rfl, by simpa using (Picks.nil (lo := lo))⟩
+  | c :: cs, lo, test, q, h => by
+    obtain ⟨l, e, hp⟩ := scanFilter_picks cs (lo + 1) test q (fun d hd => h d (by simp [hd]))
+    have hp' : Picks l (lo + 1) (lo + (c :: cs).length) (fun i => q (cellAt (c :: cs) (i - lo)) = true) := by
+      have : lo + 1 + cs.length = lo + (c :: cs).length := by simp; omega
+      rw [← this]
+      apply hp.congr
+      intro i h1 h2
+      have : i - lo = (i - (lo + 1)) + 1 := by omega
+      rw [this, cellAt_cons_succ]
+    have hfirst : Picks (if q c then [lo] else []) lo (lo + 1) (fun i => q (cellAt (c :: cs) (i - lo)) = true) := by
+      constructor
+      · split <;> simp [StrictInc]
+      · intro i
+        by_cases hq : q c = true
+        · simp only [hq, if_true, List.mem_singleton]
+          constructor
+          · rintro rfl; simp [cellAt_cons_zero, hq]
+          · rintro ⟨a, b, _⟩; omega
+        · simp only [hq]
+          simp
+          intro a b
+          have : i = lo := by omega
+          subst this
+          simpa [cellAt_cons_zero] using hq
+    refine ⟨(if q c then [lo] else []) ++ l, ?_, hfirst.append hp' (by omega) (by simp)⟩
+    simp only [scanFilter, h c (by simp), e]
+    split <;> simp
+
+/-- if the test raises on some cell, so does the scan -/
+theorem scanFilter_error : ∀ (col : List Cell) (lo : Nat) (test : Cell → Except Err Bool) (c : Cell) (e : Err),
+    c ∈ col → test c = .error e → ∃ e', scanFilter lo col test = .error e'
+  | [], _, _, _, _, h, _ => by simp at h
+  | d :: ds, lo, test, c, e, h, he => by
+    simp only [scanFilter]
+    cases hd : test d with
+    | error e' => exact ⟨e', rfl⟩
+    | ok b =>
+      simp only
+      simp at h
+      rcases h with rfl | h
+      · rw [hd] at he; exact absurd he (by simp)
+      · obtain ⟨e', he'⟩ := scanFilter_error ds (lo + 1) test c e h he
+        exact ⟨e', by rw [he']⟩
+
+/-- on the scan path `_compare` applies exactly the plain test to every cell, unless `<=`/`>=`
+meet `Missing` in a tree without the repair -/
+def leGeOK (cfg : Cfg) (op : Op) (a : ArgV) (col : List Cell) : Prop :=
+  (op = .le → cfg.missingLe = true ∨ ((∀ c ∈ col, c.key ≠ .missing) ∧ ∀ v ∈ probesOf a, v.key ≠ .missing)) ∧
+  (op = .ge → cfg.missingGe = true ∨ ((∀ c ∈ col, c.key ≠ .missing) ∧ ∀ v ∈ probesOf a, v.key ≠ .missing))
+
+theorem pyLe_fixed (cfg : Cfg) (c v : Cell) (h : cfg.missingLe = true ∨ (c.key ≠ .missing ∧ v.key ≠ .missing)) :
+    pyLe cfg c v = pyLe Cfg.fixed c v := by
+  rcases h with h | ⟨h1, h2⟩
+  · simp [pyLe, h, Cfg.fixed]
+  · simp [pyLe, h1, h2]
+
+theorem pyGe_fixed (cfg : Cfg) (c v : Cell) (h : cfg.missingGe = true ∨ (c.key ≠ .missing ∧ v.key ≠ .missing)) :
+    pyGe cfg c v = pyGe Cfg.fixed c v := by
+  rcases h with h | ⟨h1, h2⟩
+  · simp [pyGe, h, Cfg.fixed]
+  · simp [pyGe, h1, h2]
+
+theorem compareScan_eq (cfg : Cfg) (col : List Cell) (op : Op) (a : ArgV) (hshape : argShape op a = true)
+    (hle : leGeOK cfg op a col) : compareScan cfg col op a = scanFilter 0 col (sat op a) := by
+  cases a with
+  | scalar v =>
+    cases op <;> simp only [argShape] at hshape <;> try (exact absurd hshape (by decide))
+    all_goals (simp only [compareScan]; apply scanFilter_congr; intro c hc; simp only [sat, satOrd])
+    · -- le
+      by_cases hn : c = Cell.none
+      · simp [hn]
+      · simp only [hn, if_false]
+        apply pyLe_fixed
+        rcases hle.1 rfl with h | ⟨h1, h2⟩
+        · exact Or.inl h
+        · exact Or.inr ⟨h1 c hc, h2 v (by simp [probesOf])⟩
+    · -- ge
+      by_cases hn : c = Cell.none
+      · simp [hn]
+      · simp only [hn, if_false]
+        apply pyGe_fixed
+        rcases hle.2 rfl with h | ⟨h1, h2⟩
+        · exact Or.inl h
+        · exact Or.inr ⟨h1 c hc, h2 v (by simp [probesOf])⟩
+  | coll vs =>
+    cases op <;> simp only [argShape] at hshape <;> try (exact absurd hshape (by decide))
+    all_goals (simp only [compareScan]; apply scanFilter_congr; intro c hc; simp only [sat])
+
+
 end Coba.C17
